@@ -93,7 +93,8 @@ Theorem C05_knot_reads_within_allocation :
   bsplvb_simple kn nknots n x c = bsplvb_simple kn' nknots n x c /\
   bspline_deriv_nonzero kn nknots n x c = bspline_deriv_nonzero kn' nknots n x c /\
   bspline_nonzero kn nknots n x c = bspline_nonzero kn' nknots n x c /\
-  (forall i k, (i <= n)%nat -> bspline_deriv kn n x (c - Z.of_nat n + Z.of_nat i) k = bspline_deriv kn' n x (c - Z.of_nat n + Z.of_nat i) k) /\
+  (forall i k, (i <= n)%nat -> bspline_deriv kn n x (c - Z.of_nat n + Z.of_nat i) k = bspline_deriv kn' n x (c - Z.of_nat n + Z.of_nat i) k /\
+                               bspline_deriv_left kn n x (c - Z.of_nat n + Z.of_nat i) k = bspline_deriv_left kn' n x (c - Z.of_nat n + Z.of_nat i) k) /\
   (let l := adjust_left kn nknots (Z.of_nat n) x c in
    l = adjust_left kn' nknots (Z.of_nat n) x c /\ -1 <= l <= nknots - 1 /\
    deboor_rounds kn l x 0 n [rnd one] = deboor_rounds kn' l x 0 n [rnd one]).
@@ -102,7 +103,7 @@ Proof.
   split; [exact (bspline_deriv_nonzero_indep kn kn' nknots n Hagree x c Hc)|].
   split; [exact (bspline_nonzero_indep kn kn' nknots n Hagree x c Hc)|].
   split.
-  - intros i k Hi. apply (bspline_deriv_indep kn kn' nknots n Hagree x); lia.
+  - intros i k Hi. split; [apply (bspline_deriv_indep kn kn' nknots n Hagree x); lia|apply (bspline_deriv_left_indep kn kn' nknots n Hagree x); lia].
   - cbv zeta. destruct (adjust_left_indep kn kn' nknots n Hagree x c Hc) as [E B].
     split; [exact E|]. split; [exact B|].
     apply (deboor_rounds_indep kn kn' nknots n Hagree _ x B); cbn [length]; lia.
